@@ -3,7 +3,7 @@ CONSTANTS
   Geoms <- Intervals3
   MaxN = 2
   MaxM = 2
-  MaxTotal = 4
+  MaxTotal = 3
   ZeroPairs = "split"
   TB = 0
   FB = 0
